@@ -15,7 +15,7 @@ PROPS_FILE = "Props/C10.v"
 MODEL_FILES = ["Model/Vmdk.v", "Model/VmdkDesc.v", "Model/Hdd.v", "Proofs/Layers.v"]
 META = {
     "category": "proof",
-    "text": "Coq theorems: Parallels StorageStream: size = end of the last storage, a read across any number of storages is the concatenation at storage-relative offsets, and the whole .hdd (storages x per-storage snapshot chains, Model/Hdd.v) reads as specified; the model of DiskDescriptor.parse + a backtracking matcher for RE_EXTENT_DESCRIPTOR (alternatives "
+    "text": "Coq theorems: the parent-aware assembly of a split snapshot disk is the assembly proved about when there is no parent (assemble_p_no_parent; with a parent the multi-extent model reads absent grains from the parent at the sector of the DISK, validated three-way); Parallels StorageStream: size = end of the last storage, a read across any number of storages is the concatenation at storage-relative offsets, and the whole .hdd (storages x per-storage snapshot chains, Model/Hdd.v) reads as specified; the model of DiskDescriptor.parse + a backtracking matcher for RE_EXTENT_DESCRIPTOR (alternatives "
             "read from the source), ExtentDescriptor, the extent wiring of VMDK.__init__ (type lists read from the source), "
             "the offset bookkeeping, bisect lookup and the walk of VMDK.read_sectors, and StorageStream: a disk assembled from "
             "extents reads as their concatenation, its size is the sum, every data-bearing extent type of the grammar is wired "
